@@ -221,8 +221,39 @@ def _feed(h, obj):
         h.update(b"S" + obj.encode())
     elif isinstance(obj, bytes):
         h.update(b"Y" + obj)
+    elif isinstance(obj, np.random.RandomState):
+        h.update(b"RS")
+        _feed(h, list(obj.get_state()))
+    elif type(obj).__name__ == 'Rotation' and hasattr(obj, 'as_quat'):
+        h.update(b"ROT")
+        _feed(h, np.asarray(obj.as_quat()))
+    elif isinstance(obj, (set, frozenset)):
+        _feed(h, sorted(obj, key=repr))
+    elif type(obj).__name__ == 'Integrator' and hasattr(obj, 'mat_nb'):
+        # observable state only: the buffers beyond the rows held are uninitialised memory
+        n = len(obj.trajectory)
+        h.update(b"INTEGRATOR")
+        _feed(h, [obj.trajectory, obj.lla[:n], obj.velocity_n[:n], obj.mat_nb[:n],
+                  bool(obj.with_altitude), obj.initial_pva])
+    elif hasattr(obj, '__dict__') and not isinstance(obj, type) and not callable(obj):
+        h.update(b"O" + type(obj).__name__.encode())
+        if _depth[0] > 6:
+            h.update(b"...")
+        else:
+            _depth[0] += 1
+            try:
+                d = {k: v for k, v in vars(obj).items() if k not in _SKIP_ATTRS}
+                _feed(h, d)
+            finally:
+                _depth[0] -= 1
+    elif callable(obj):
+        h.update(b"C" + getattr(obj, '__qualname__', type(obj).__name__).encode())
     else:
         h.update(b"R" + repr(obj).encode())
+
+
+_depth = [0]
+_SKIP_ATTRS = {'spy_log'}
 
 
 def digest(*objs):
